@@ -10,6 +10,7 @@ import (
 	"fmt"
 	"io"
 	"net/http"
+	"reflect"
 	"strings"
 
 	"verif/mc/hcli"
@@ -111,6 +112,14 @@ func queryMalformed(q string, declared map[string]bool) bool {
 	return false
 }
 
+func renderArgs(args []reflect.Value) string {
+	var parts []string
+	for _, a := range args {
+		parts = append(parts, canonGo(a))
+	}
+	return strings.Join(parts, ", ")
+}
+
 func partC04H(a *hcli.Args, rep *report.Report, univName string, u *schema.Universe) {
 	sq := rep.S("http-requests")
 	sr := rep.S("http-responses")
@@ -121,7 +130,7 @@ func partC04H(a *hcli.Args, rep *report.Report, univName string, u *schema.Unive
 	}
 	strs := shortStrings(sigma, L)
 	subst := []byte{'(', ')', ',', ':', '"', '{', '}', '[', ']', '\\', 0x00, 0xff, '%', '&', '=', ' '}
-	sq.Bounds = fmt.Sprintf("every method of every resource: the valid request sent by the generated client with (a) an extra query parameter whose value is each of the %d strings of <=%d symbols over %v, the whole query replaced by each of them, every truncation / single-byte edit of the valid query; (b) the entity key segment replaced by each of the strings, the entity key dropped from / added to the path, every key position of the path replaced on its own and every pair of key positions replaced together by all pairs of strings of <=2 symbols; (c) every truncation and single-byte deletion / substitution (%d bytes) of the JSON body; (d) method / content-type / protocol-version header variants; (e) tunnelled envelopes (both parts, one part missing, none, foreign part, doubled, unterminated, truncated every 7 bytes, form-encoded, no boundary); oracle: no panic escapes, status < 500, no stack trace; when a declared parameter loses its parenthesis balance, or the body is a non-empty strict prefix that is not JSON: 4xx and no resource invocation", len(strs), L, sigma, len(subst))
+	sq.Bounds = fmt.Sprintf("every method of every resource: the valid request sent by the generated client with (a0) an undeclared query parameter under three names (sorting first, last, in between) x 7 well-formed values: the request must reach the same method with the same arguments; (a) an extra query parameter whose value is each of the %d strings of <=%d symbols over %v, the whole query replaced by each of them, every truncation / single-byte edit of the valid query; (b) the entity key segment replaced by each of the strings, the entity key dropped from / added to the path, every key position of the path replaced on its own and every pair of key positions replaced together by all pairs of strings of <=2 symbols; (c) every truncation and single-byte deletion / substitution (%d bytes) of the JSON body; (d) method / content-type / protocol-version header variants; (e) tunnelled envelopes (both parts, one part missing, none, foreign part, doubled, unterminated, truncated every 7 bytes, form-encoded, no boundary); oracle: no panic escapes, status < 500, no stack trace; when a declared parameter loses its parenthesis balance, or the body is a non-empty strict prefix that is not JSON: 4xx and no resource invocation", len(strs), L, sigma, len(subst))
 	sr.Bounds = "every method of every resource: the valid response with every truncation / single-byte edit of its body, X-RestLi-Id and Location replaced by each short ROR2 string, error-header / status / content-type variants; oracle: the generated client call returns (value or error) and never panics"
 	w := NewWorld(u, DefaultConfig)
 	failq := func(kind string, r *schema.Resource, m *schema.Method, what, detail string, raw []byte) {
@@ -199,6 +208,47 @@ func partC04H(a *hcli.Args, rep *report.Report, univName string, u *schema.Unive
 					return p
 				}
 				return p + "?" + q
+			}
+			// (a0) a well-formed parameter the method does not declare (as newer clients send: projections, metadata
+			// switches) is skipped: the request reaches the same method with the same arguments
+			{
+				validCall := w.calls
+				w.reset()
+				// the valid request once more, raw, for the reference invocation
+				if x, err := wire.DoRaw(w.transport.Handler, raw); err == nil && x != nil && len(w.calls) == 1 {
+					ref := w.calls[0]
+					for _, uv := range []string{"1", "abc", "''", "(a:1)", "List(a,b)", "(a:List((b:c),(d:'')))", "a%20b%2Cc"} {
+						for _, name := range []string{"zzUnknown", "fields0", "aaUnknown"} {
+							q1 := name + "=" + uv
+							if query != "" {
+								if name == "aaUnknown" {
+									q1 = q1 + "&" + query
+								} else {
+									q1 = query + "&" + q1
+								}
+							}
+							mraw := joinRaw(verb+" "+mkTarget(path, q1)+" "+proto, headers, body)
+							w.calls = nil
+							x2, err := wire.DoRaw(w.transport.Handler, mraw)
+							sq.Evaluations++
+							sq.Transitions++
+							sq.Traces++
+							switch {
+							case err != nil || x2 == nil || x2.Response == nil:
+								sq.Class("not-an-http-request")
+							case x2.Panic != nil:
+								failq("panic-escaped", r, m, "unknown-param", fmt.Sprintf("panic escaped ServeHTTP: %v", x2.Panic), mraw)
+							case len(w.calls) != 1 || w.calls[0].method != ref.method:
+								failq("unknown-param-not-skipped", r, m, "unknown-param", fmt.Sprintf("status %d body %.200q: the request with the undeclared parameter %s did not reach %s (invocations: %d)", x2.Response.StatusCode, x2.Body, q1, ref.method, len(w.calls)), mraw)
+							case renderArgs(w.calls[0].args) != renderArgs(ref.args):
+								failq("unknown-param-disturbs", r, m, "unknown-param", fmt.Sprintf("with the undeclared parameter %s the resource received %s instead of %s", q1, renderArgs(w.calls[0].args), renderArgs(ref.args)), mraw)
+							default:
+								sq.Class("ok:unknown-param-skipped")
+							}
+						}
+					}
+				}
+				_ = validCall
 			}
 			// (a) query
 			for _, sx := range strs {
